@@ -11,31 +11,42 @@ COQ_REQUIRE = "C09.Run"
 SHARD = 60
 LEGACY_STRIP = False  # model parameter: True = code before fix e02f4b0 (name = line[:colon].strip())
 CASE_TIMEOUT = 120  # generous: the sandbox is shared and can be heavily loaded
-RULE = ("/proc/net/dev files printed by the kernel printer of coq/C09/Spec.v from 0..12 interfaces (names from a pool with ':' "
-        "digits and punctuation plus random printable names, both the modern '%6s: %7llu' and the old '%6s:%8lu' format), "
+RULE = ("/proc/net/dev files printed by the kernel printer of coq/C09/Spec.v from 0..12 interfaces: names from an ASCII pool (':' "
+        "'/' digits punctuation), a bytes pool (UTF-8, undecodable bytes, control characters, str blanks inside the name), a pool of "
+        "kernel-valid names beginning/ending with a str blank (0x1c-0x1f, U+0085, U+1680, U+2003, U+2028, U+3000 ...), one name per "
+        "str blank code point (at the end and inside), random printable names; modern '%6s: %7llu' and old '%6s:%8lu' format; "
         "/proc/diskstats files of 0..12 lines mixing the 14/18/20/22-field, 15-field (2.4) and 7-field layouts, disks and "
-        "partitions, names with '/' and '!', /sys/block populated from the whole-disk flags plus unrelated or contradicting "
-        "entries; counters from {0,1,small,2^31,2^32,2^63,2^64-1,>2^64}; a 'distinct column' class gives every column its own "
-        "value so any swap shows; the /sys/block fallback (no /proc/diskstats) over a fake sysfs tree; a malformed stream "
-        "(dropped/added/non-numeric fields, blank lines, missing colon, short headers) compared with the model's error class; "
-        "disk_usage over statvfs tuples with f_bsize and f_frsize independent (f_bsize equal to, larger than, smaller than f_frsize, "
-        "huge, 0; fragment sizes 1..2^20, boundary and random block counts, empty file systems). "
-        "Both calls are made with nowrap=False and with nowrap=True on a cleared cache. A case is non-trivial when at "
-        "least one interface/device/non-zero block count is present; distinct = distinct canonical case hash.")
+        "partitions, names with one or several '/', '!', virtual devices (loop, ram, dm-, md, zram), non-ASCII names, /sys/block "
+        "populated from the whole-disk flags plus unrelated or contradicting entries; counters from "
+        "{0,1,small,2^31,2^32,2^63,2^64-1,>2^64}; a 'distinct column' class gives every column its own value so any swap shows; "
+        "the /sys/block fallback (no /proc/diskstats) over a fake sysfs tree; a malformed stream (dropped/added/non-numeric "
+        "fields, blank lines, missing colon -> AssertionError, short headers, '\\r', 0x1c-0x1f, U+0085/U+2003/U+00A0, "
+        "undecodable bytes inside lines) compared with the model's error class; the text layer itself (Coq decoder, universal "
+        "newlines, str.split/strip, the complete str.isspace table over all 1114112 code points) against CPython; disk_usage over "
+        "statvfs tuples with f_bsize and f_frsize independent (equal, larger, smaller, huge, 0). Both calls are made with "
+        "nowrap=False and with nowrap=True on a cleared cache. A case is non-trivial when at least one interface/device/non-zero "
+        "block count/byte is present; distinct = distinct canonical case hash.")
 TRUSTED = ["correspondence harness props/C09.py + pv/ (fake /proc/net/dev, /proc/diskstats, /sys/block via pv.shim, os.statvfs patch)",
-           "kernel formats of /proc/net/dev (net/core/net-procfs.c), /proc/diskstats and /sys/block/*/stat "
-           "(Documentation/admin-guide/iostats.rst, 2.4 /proc/partitions) transcribed in coq/C09/Spec.v",
-           "hand-written model coq/C09/Model.v of _pslinux.net_io_counters/disk_io_counters/is_storage_device, the "
-           "__init__ front ends and _psposix.disk_usage (tied to the code by the correspondence run only)"]
-ASSUMPTIONS = ["file contents are printable ASCII plus \\t\\n\\v\\f: text-mode decoding, universal newlines and the Unicode "
-               "whitespace classes of str.split()/strip() are outside the model (such inputs are skipped as OutOfModel)",
+           "kernel formats of /proc/net/dev (net/core/net-procfs.c), dev_valid_name (net/core/dev.c), /proc/diskstats and "
+           "/sys/block/*/stat (Documentation/admin-guide/iostats.rst, 2.4 /proc/partitions) transcribed in coq/C09/Spec.v",
+           "hand-written model coq/C09/Model.v + Text.v of _pslinux.net_io_counters/disk_io_counters/is_storage_device, the "
+           "__init__ front ends, _psposix.disk_usage and of CPython's text layer (UTF-8/surrogateescape decoding, universal "
+           "newlines, str.isspace) -- tied to the code and to CPython by the correspondence run only",
+           "table translator props/_c09_tables.py (namedtuple _fields and DISK_SECTOR_SIZE dumped from the tree under test into "
+           "coq/Gen/C09_Tables.v on every run; fail-closed)"]
+ASSUMPTIONS = ["int() on a token containing a non-ASCII character (CPython accepts Unicode decimal digits) is outside the model; such "
+               "inputs are skipped as OutOfModel (they occur only in the malformed stream)",
                "CPython semantics of str.split/strip/rfind/int, dict insertion order, zip/sum and namedtuple are modelled, not verified",
                "numbers with more than 4300 digits are out of the model (CPython int() limit)",
                "_wrap_numbers (nowrap=True across several calls) belongs to property C10; here only the first call on a cleared cache",
                "percent is compared as round(exact rational, 1) with either neighbour accepted within 1e-6 of a tie (IEEE double "
-               "arithmetic of float(used)/total*100 is trusted)"]
+               "arithmetic of float(used)/total*100 is trusted)",
+               "the /sys/block name of a device is taken as str: decoding and the '/'->'!' rewriting are assumed to commute "
+               "(both ASCII; exercised on non-ASCII disk names by the correspondence run)"]
 EXHAUSTIVE = {"quick": "every diskstats layout (14,18,20,22,15,7 fields) x {whole disk, partition} x {perdisk True, False} as single-line files; "
-                       "every single-column perturbation of one /proc/net/dev line (16 columns) and one diskstats line (11 columns)",
+                       "every single-column perturbation of one /proc/net/dev line (16 columns) and one diskstats line (11 columns); "
+                       "every str blank code point except tab/newline/space/NBSP at the end of and inside an interface name; "
+                       "str.isspace() over all 1114112 code points against Text.is_uws",
               "thorough": "same enumerations, plus all pairs of layouts in two-line files"}
 
 U64 = 2 ** 64 - 1
@@ -269,7 +280,7 @@ def gen_cases(rng, tier):
             b"\xe2\x80\xa9", b"\xe2\x80\xaf", b"\xe2\x81\x9f", b"\xe3\x80\x80", b"\xe1\xa0\x8e", b"\xe2\x80\x8b", b"\xef\xbb\xbf",
             b"\xed\xa0\x80", b"\xed\x9f\xbf", b"\xe0\x80\x80", b"\xe0\xa0\x80", b"\xf0\x90\x80\x80", b"\xf0\x8f\xbf\xbf",
             b"\xf4\x8f\xbf\xbf", b"\xf4\x90\x80\x80", b"\xf5", b"\xc0\x80", b"\xc1\xbf", b"\xdf\xbf", b"\xff", b"\xfe", b"\xf0\x9f\x98"]
-    for _ in range(60 * N):
+    for _ in range(40 * N):
         if rng.random() < 0.7:
             b = b"".join(rng.choice(frag) for _ in range(rng.randint(0, 12)))
         else:
@@ -277,7 +288,7 @@ def gen_cases(rng, tier):
                       for _ in range(rng.randint(1, 10)))
         add({"kind": "dec", "cls": "text-layer" if b else "trivial", "content": b.hex()})
     # ---- /proc/net/dev
-    for _ in range(90 * N):
+    for _ in range(70 * N):
         n = rng.choice([0, 1, 1, 2, 3, 5, 8, 12])
         mode = rng.choice(["rand", "rand", "distinct", "zeros"])
         r = rng.random()
@@ -311,7 +322,7 @@ def gen_cases(rng, tier):
                 lines[-1] = lines[-1].rstrip()
         add({"kind": "netraw", "cls": "net-malformed", "content": _enc("\n".join(lines)).hex()})
     # ---- /proc/diskstats
-    for _ in range(120 * N):
+    for _ in range(100 * N):
         devs, others = _disk_file(rng, allow24=True)
         if not _fs_safe(devs):
             continue
@@ -671,19 +682,26 @@ def _text_run(case, env):
 
 
 MANIFEST = {
-    "text": "Theorems (Coq 8.16, closed under the global context) over a hand-written Gallina transcription of the anchored code: for every "
-            "list of interfaces with distinct printable names and every 16 digit strings per interface (no bound on magnitude or count), "
-            "parsing the kernel-printed /proc/net/dev (modern and old column format) yields per interface exactly the eight documented "
-            "fields from kernel columns 9,1,10,2,3,11,4,12, and the system-wide answer is their field-wise sum, None/{} for an empty list; "
-            "for every /proc/diskstats of 14-, 18-, 20- (any >=18-) and 7-field lines, disks and partitions mixed, the per-disk answer holds "
-            "the nine documented fields with sectors x 512 for every listed device and the system-wide answer is the sum over exactly the "
-            "devices that have a /sys/block entry (partitions left out), None when there is none; the 15-field (Linux 2.4) layout is read one "
-            "column off (refuted theorem with the kernel documentation's example line; known finding) and the model's shifted reading is "
-            "characterised exactly; the /sys/block fallback; disk_usage equals total/used/free/percent of the property for every statvfs "
-            "tuple with f_frsize as the unit and f_bsize (an independent field) never entering the result, "
-            "and stays within 0..100 for kernel-shaped tuples. The model is tied to the real psutil on every run by executing both on "
-            "kernel-printed and malformed files over a fake /proc and /sys and comparing named-tuple field names, order and values.",
-    "note": "Trusted: Coq kernel + vm_compute; model coq/C09/Model.v (tied by the correspondence run only); kernel formats in coq/C09/Spec.v; "
-            "harness (fake /proc, pv.shim /sys redirection, os.statvfs patch); CPython builtins; text-mode decoding outside printable ASCII "
-            "is out of the model. Proof covers the model, sampling covers model-vs-code.",
+    "text": "Theorems (Coq 8.16, 19, closed under the global context) over a hand-written Gallina transcription of the anchored code, "
+            "text-mode reading included (UTF-8/surrogateescape decoding, universal newlines, str.split/strip blanks): for every list of "
+            "interfaces whose names are any bytes not beginning/ending with a space and without line breaks -- proved to include every "
+            "name dev_valid_name() accepts -- and every 16 digit strings per interface (no bound on magnitude or count), parsing the "
+            "kernel-printed /proc/net/dev (modern and old column format) yields per interface, keyed by the str of its name, exactly "
+            "the eight documented fields from kernel columns 9,1,10,2,3,11,4,12, and the system-wide answer is their field-wise sum, "
+            "None/{} for an empty list; the named-tuple field tables and the sector size are dumped from the code on every run "
+            "(coq/Gen/C09_Tables.v) and proved equal to the documented ones, so a reordered namedtuple breaks a proof; for every "
+            "/proc/diskstats of 14-, 18-, 20- (any >=18-) and 7-field lines the per-disk answer holds the nine documented fields with "
+            "sectors x 512 for every listed device and, for EVERY /sys/block content, the system-wide answer is the sum over exactly the "
+            "devices whose name (every '/' written '!') is a /sys/block entry, None when there is none; under the kernel-shaped "
+            "hypothesis (every other device is a partition of such an entry, whose counter includes it) every summable field of the "
+            "total equals the sum over all device nodes of what was submitted to each: nothing counted twice; the 15-field (Linux "
+            "2.4) layout is read one column off (refuted theorem with the kernel documentation's example line; known finding) and "
+            "the model's shifted reading is characterised exactly; the legacy name.strip() variant is refuted (fixed finding e02f4b0); "
+            "the /sys/block fallback; disk_usage equals total/used/free/percent of the property for every statvfs tuple with f_frsize "
+            "as the unit and f_bsize never entering the result, within 0..100 for kernel-shaped tuples. The model is tied to the "
+            "real psutil on every run by executing both on kernel-printed and malformed files over a fake /proc and /sys and comparing "
+            "named-tuple field names, order and values; the Coq text layer is compared with CPython's.",
+    "note": "Trusted: Coq kernel + vm_compute; model coq/C09/Model.v + Text.v (tied by the correspondence run only); kernel formats in "
+            "coq/C09/Spec.v; table translator props/_c09_tables.py; harness (fake /proc, pv.shim /sys redirection, os.statvfs patch); "
+            "CPython builtins. Proof covers the model, sampling covers model-vs-code.",
 }
